@@ -61,6 +61,18 @@ CHECKS["C15"] = dict(
     design="§7 C15",
 )
 
+CHECKS["C08"] = dict(
+    text=("Lean theorem cum_eq_prefix: for every list of rows (any interleaving of groups, null keys, nulls, boolean mask) the output of the cumulative "
+          "loop equals, at every non-null-key row, the per-group definition (sum/min/max/count of the non-null selected values of the same group up to "
+          "and including the row); null-key rows get a marker independent of all other rows; rows of other groups / unselected rows never enter; the "
+          "last cumulative value of a group equals the group reduction; a null makes the non-skipping float sum null from there on. Reducers come from "
+          "the source via the translator+Bridge; the loop is tied by correspondence on numba.cum* and GroupBy.cum* (all dtype classes, ints beyond 2^53, "
+          "datetime/timedelta with NaT, exact dtype checks)."),
+    note="The read-back of the running value from the output array is modelled as the group's running partial (each position is written once, in its own iteration); cummin/cummax with skip_na=False are compared with the model only (the property does not define them).",
+    technique="Lean 4 proof (structural induction over the row list, any starting state) + reducer translation + differential correspondence",
+    design="§7 C08",
+)
+
 NOT_APPLICABLE: list[dict] = []
 
 
